@@ -151,15 +151,24 @@ pub fn check_law_batch(law: &Law, g: &SymbolicAsyncGraph, p: &GraphColoredVertic
 pub fn check_library(g: &SymbolicAsyncGraph, p: &GraphColoredVertices, q: &GraphColoredVertices) -> Option<String> {
     let ctx = ctx_of(p, Some(q), None);
     let r = guarded(AssertUnwindSafe(|| {
-        let ef = eval("EF %p%", g, &ctx).ok()?;
+        let ef = match eval("EF %p%", g, &ctx) {
+            Ok(x) => x,
+            Err(e) => return Some(format!("EF %p%: evaluation fails: {e}")),
+        };
         if ef != g.reach_backward(p) {
             return Some("EF %p% differs from SymbolicAsyncGraph::reach_backward(p)".to_string());
         }
-        let ag = eval("AG %p%", g, &ctx).ok()?;
+        let ag = match eval("AG %p%", g, &ctx) {
+            Ok(x) => x,
+            Err(e) => return Some(format!("AG %p%: evaluation fails: {e}")),
+        };
         if ag != g.trap_forward(p) {
             return Some("AG %p% differs from SymbolicAsyncGraph::trap_forward(p) (largest forward-closed subset)".to_string());
         }
-        let eu = eval("%p% EU %q%", g, &ctx).ok()?;
+        let eu = match eval("%p% EU %q%", g, &ctx) {
+            Ok(x) => x,
+            Err(e) => return Some(format!("%p% EU %q%: evaluation fails: {e}")),
+        };
         let both = p.union(q);
         let constrained = if both.is_empty() { g.mk_empty_colored_vertices() } else { Reachability::reach_bwd(&g.restrict(&both), q) };
         if eu != constrained {
